@@ -573,6 +573,9 @@ func (push *Push) runTask(input *pushNotify) {
 	//触发goroutine运行
 	push.updateLastSeq(input.subscribe.Name)
 
+	// mark the task as running before its goroutine gets scheduled: a re-registration of the same
+	// subscriber arriving in between (check2ResumePush) must not start a second goroutine
+	atomic.StoreInt32(&input.status, running)
 	push.postwg.Add(1)
 	go func(in *pushNotify) {
 		var lastesBlockSeq int64
